@@ -121,3 +121,43 @@ func HarnessC05StatusForge() {
 	}
 	zz.Observe("forge", string(ready.Status), string(synced.Status), string(ready.Reason))
 }
+
+// HarnessC05TwoSteps: a pipeline of two steps, each of which marks the XR
+// ready, unready or not at all in the desired state it returns. What counts is
+// the pipeline's final desired state - the last step's: the XR is reported
+// Ready=True only if that marks it ready, or does not mark it unready and the
+// composed resource is ready. What an earlier step said does not stick.
+//
+//gosym:harness
+//gosym:cover ready-true ready-false earlier-step-said-ready
+func HarnessC05TwoSteps() {
+	s := kube.New()
+	s.Put(zzNewXRObject())
+	readies := []fnv1.Ready{fnv1.Ready_READY_UNSPECIFIED, fnv1.Ready_READY_TRUE, fnv1.Ready_READY_FALSE}
+	res := readies[zz.Choose("res0.ready", 3)]
+	st0 := zzStep{desired: []bool{true, false}, ready: []fnv1.Ready{res, res}, xrReady: readies[zz.Choose("step0.xr.ready", 3)]}
+	st1 := zzStep{desired: []bool{true, false}, ready: []fnv1.Ready{res, res}, xrReady: readies[zz.Choose("step1.xr.ready", 3)]}
+	runner := &zzRunner{steps: []zzStep{st0, st1}}
+	r := NewReconciler(s, s, resource.CompositeKind(zzXRGVK),
+		WithCompositionSelector(CompositionSelectorFn(func(context.Context, resource.Composite) error { return nil })),
+		WithCompositionRevisionFetcher(CompositionRevisionFetcherFn(func(context.Context, resource.Composite) (*v1.CompositionRevision, error) {
+			return zzRevision(2), nil
+		})),
+		WithCompositionRevisionValidator(CompositionRevisionValidatorFn(func(*v1.CompositionRevision) error { return nil })),
+		WithConfigurator(ConfiguratorFn(func(context.Context, resource.Composite, *v1.CompositionRevision) error { return nil })),
+		WithComposer(NewFunctionComposer(s, s, runner)),
+	)
+	_, err := r.Reconcile(context.Background(), reconcile.Request{NamespacedName: types.NamespacedName{Name: zzXRName}})
+	zz.Assert("reconcile-no-error", err == nil)
+	ready := zzStoredCondition(s, xpv1.TypeReady)
+	if st0.xrReady == fnv1.Ready_READY_TRUE && st1.xrReady != fnv1.Ready_READY_TRUE {
+		zz.Cover("earlier-step-said-ready")
+	}
+	if ready.Status == corev1.ConditionTrue {
+		zz.Cover("ready-true")
+		zz.Assert("ready-only-if-the-final-desired-state-says-so-or-all-resources-ready",
+			st1.xrReady == fnv1.Ready_READY_TRUE || (st1.xrReady != fnv1.Ready_READY_FALSE && res == fnv1.Ready_READY_TRUE))
+	} else {
+		zz.Cover("ready-false")
+	}
+}
